@@ -70,6 +70,13 @@ def run(ctx):
         "whole_daemon_single_writer_monitor": sig_cov,
         "exhaustive": False,
     }
+    # threads and forked children in a C client (own contexts, handed-over contexts, inherited contexts)
+    from . import client as _client
+    _mv, _ms = _client.run_mt(ctx, "C02", 2.0 if ctx.quick() else 20.0)
+    viol += _mv
+    coverage["multi_threaded_c_client"] = _ms
+    if any("inconclusive" in str(v) or str(v).startswith("exit ") for v in _ms.values()) and not inconclusive:
+        inconclusive = "multi-threaded C client scenario did not complete: %s" % _ms
     finish(ctx, coverage, viol, inconclusive, assumptions=[
         "Miri's weak-memory emulation under-approximates C11 (no load buffering); hardware behaviours outside it are not reached",
         "hooked build: the record copy is 7 relaxed 64-bit accesses (hook H3) so that Miri can serve stale words instead of aborting on the intended race",
